@@ -44,7 +44,7 @@ func init() {
 			"outside the 304 branch and no stale-while-revalidate spawn is reachable from RoundTrip; the staleness flag tested with must-revalidate does not depend on max-stale; " +
 			"validators are copied from the stored header onto a clone whose header map is a copy; every unvalidated return under qualified no-cache passes the field stripper; " +
 			"in the validation handler a stored response is returned only under status==304 or the stale-if-error policy.",
-		NotDecided: "whether a request max-age is numerically exceeded on the SWR path; textual value of validators; whether the origin answered truthfully.",
+		NotDecided: "the numeric comparison of the age with a request max-age (only that the stale-while-revalidate branch is closed under it); textual value of validators; whether the origin answered truthfully.",
 		Assumptions: []string{"R-REQ, R-FRESH, R-PURE (checked in C02.0)", "one stored entry per exchange: rs.* atoms of different functions refer to the same stored response (checked: single entry read site)"},
 		Rules: []Rule{
 			{ID: "C02.0", Desc: "shared premises", Run: func(c *Ctx) { ruleRREQ(c, "C02.0"); ruleRFRESH(c, "C02.0"); ruleRPURE(c, "C02.0"); ruleOneEntry(c, "C02.0") }, MinSites: 4},
@@ -74,6 +74,11 @@ func ruleC02_1(c *Ctx) {
 	for _, r := range rows {
 		c.ForbidOb("C02.1", r.name, r.assume, "UNVALIDATED-REUSE", c.An.IsUnvalidatedReuse, true, r.witness)
 	}
+	// a request max-age that the stored response exceeds: stale-while-revalidate must not answer (the plain serve is
+	// excluded by the staleness flag, which C02.6 ties to the request's max-age)
+	c.ForbidOb("C02.1", "row=d-request-max-age-exceeded", map[string]bool{"rq.max-age.ok": true, "rq.max-age.exceeded": true, "fr.stale": true, "rq.only-if-cached": false, not304: false},
+		"SWR-SPAWN", c.An.IsSWRSpawn, true,
+		"request `max-age=0` (or any max-age below the stored response's age) against a stored `max-age=60, stale-while-revalidate=600` entry is answered STALE without validation in the same exchange")
 }
 
 // ruleOneEntry: exactly one entry-read site on the exchange, so rs.* atoms all concern one stored response.
